@@ -1,7 +1,7 @@
 (* C11  Every referenced class is declared or imported, and every import resolves (import bookkeeping). *)
 From Coq Require Import List String Ascii ZArith Bool Permutation Sorting.Sorted. Import ListNotations.
 From SV Require Import Lib.Str Model.Types Model.Api Model.Back Proofs.MoreProofs Proofs.OrderProofs.
-From SV Require Import Model.View Model.Front Proofs.FrontProofs Proofs.ImportProofs.
+From SV Require Import Model.View Model.Front Proofs.FrontProofs Proofs.ImportProofs Model.Layout Proofs.PlaceholderProofs.
 
 Theorem C11_builtins_not_imported : forall classes rmap q s,
   (str_eqb (hd [] (split_ch dot q)) (K"builtins") && Nat.eqb (List.length (split_ch dot q)) 2) || str_eqb q (K"typing.Any") = true ->
@@ -93,6 +93,13 @@ Theorem C11_class_types_are_imported : forall classes rmap nc fu c indent rx s x
   Forall (fun sc => imported classes rmap sc s s')
          (if nonempty (c_supers c) && negb (is_abstract c) then filter (fun sc => negb (Naming.is_internal (super_name sc))) (c_supers c) else []).
 Proof. exact class_string_imports. Qed.
+(* "including the placeholder stubs created for classes of other libraries": every class that is registered for a placeholder
+   (C11_foreign_class_registered) is declared in the placeholder file of its module, for every arrival order and every
+   initial content of the output directory *)
+Theorem C11_placeholder_declares_every_class : forall nc cs fs0 fs created,
+  well_formed cs -> go_outside nc cs (fs0, []) = Ok (fs, created) ->
+  forall c, In c cs -> exists pre post, fs_lookup (file_of c) fs = Some (pre ++ text_of nc c ++ post).
+Proof. exact placeholder_declares_every_class. Qed.
 Print Assumptions C11_builtins_not_imported.
 Print Assumptions C11_foreign_class_registered.
 Print Assumptions C11_import_path_minimal.
@@ -107,3 +114,4 @@ Print Assumptions C11_function_types_are_imported.
 Print Assumptions C11_module_function_types_are_imported.
 Print Assumptions C11_class_rendering_keeps_imports.
 Print Assumptions C11_class_types_are_imported.
+Print Assumptions C11_placeholder_declares_every_class.
